@@ -361,6 +361,10 @@ pub fn position_at(text: &str, offset: usize) -> (u32, u32) {
                 prev_cr = false;
             }
             '\r' => {
+                if offset == i + 1 && text.as_bytes().get(i + 1) == Some(&b'\n') {
+                    // between \r and \n: the line end in front of the \r
+                    break;
+                }
                 line += 1;
                 units = 0;
                 prev_cr = true;
